@@ -4,6 +4,7 @@ pub mod c05;
 pub mod c06;
 pub mod c11;
 pub mod c12;
+pub mod c13;
 pub mod c14;
 pub mod c15;
 pub mod c16;
@@ -41,6 +42,7 @@ pub fn run(a: &Args) -> Result<ShardOut, String> {
         "C09" => Ok(worldmon::run_c09(a)),
         "C11" => Ok(c11::run(a)),
         "C12" => Ok(c12::run(a)),
+        "C13" => Ok(c13::run(a)),
         "C14" => Ok(c14::run(a)),
         "C15" => Ok(c15::run(a)),
         "C03" => Ok(tamper::run(a, false)),
